@@ -39,7 +39,7 @@ ID = "C15"
 LEAN_TARGETS = ["RV.C15.Props", "RV.C15.Audit"]
 AUDIT = "RV/C15/Audit.lean"
 DRIVER = "drv_c15"
-CASES = {"quick": 1150, "thorough": 30000, "search": 6000}
+CASES = {"quick": 1050, "thorough": 30000, "search": 6000}
 RULE = ("random SELECT queries (BGPs of 1-4 patterns over <=4 variables, joins of groups, UNION, OPTIONAL, FILTER, "
         "MINUS, BIND, VALUES, sub-SELECT, GRAPH, property paths, DISTINCT / ORDER BY / GROUP BY+COUNT) over 5-15 "
         "triples in 0-3 named graphs; each case poses the query in two or more ways the property calls equivalent "
@@ -545,16 +545,20 @@ SPELL_MODES = ["full", "e", "zz", "colon", "base", "relprefix", "mixed", "graphn
 class Speller:
     """Chooses how each IRI occurrence is written.  All modes denote the same IRIs."""
 
-    def __init__(self, mode, seed, ns=None):
+    def __init__(self, mode, seed, ns=None, pfx="ux", declare=None):
         self.mode, self.rng = mode, random.Random(seed)
         self.ns = ns or NS      # namespace the IRI keys stand for (full / ctx modes only)
+        self.pfx = pfx          # ctx mode: the prefix name the text uses
+        self.declare = declare  # ctx mode: None = not declared in the text, else the namespace it declares
         self.used_xsd = False
 
     def prologue(self):
         m = self.mode
         xs = "PREFIX XSD: <%s> " % XS
+        if m == "ctx" and self.declare:
+            return xs + "PREFIX %s: <%s> " % (self.pfx, self.declare)
         if m in ("full", "ctx"):
-            return xs      # ctx: `ux:` is not declared in the text, it comes from the graph / initNs
+            return xs      # ctx: the prefix is not declared in the text, it comes from the graph / initNs / defaults
         if m == "e":
             return xs + "PREFIX e: <%s> " % NS
         if m == "zz":
@@ -576,7 +580,7 @@ class Speller:
         if m == "mixed":
             m = self.rng.choice(["full", "e", "zz", "colon", "base"])
         if m == "ctx":
-            return "ux:" + key
+            return self.pfx + ":" + key
         return {"full": "<%s%s>" % (self.ns, key), "e": "e:" + key, "zz": "zz:" + key, "colon": ":" + key,
                 "base": "<%s>" % key, "relprefix": "rp:" + key, "graphns": "gn:" + key}[m]
 
@@ -673,8 +677,8 @@ def select_text(sp, q):
     return s
 
 
-def query_text(q, mode="e", seed=0, ns=None):
-    sp = Speller(mode, seed, ns)
+def query_text(q, mode="e", seed=0, ns=None, pfx="ux", declare=None):
+    sp = Speller(mode, seed, ns, pfx, declare)
     body = select_text(sp, q)
     return sp.prologue() + body
 
@@ -926,10 +930,10 @@ def _term_ns(key, ns):
     return URIRef(ns + key) if isinstance(t, URIRef) else t
 
 
-def build_two_ns(data1, data2, ds, ux):
-    """one graph holding data1 under NS and data2 under NS2; its namespace manager binds `ux:` to `ux`"""
+def build_two_ns(data1, data2, ds, ux, ns1=NS):
+    """one graph holding data1 under ns1 and data2 under NS2; its namespace manager binds `ux:` to `ux`"""
     g = Dataset() if ds else Graph()
-    for data, ns in ((data1, NS), (data2, NS2)):
+    for data, ns in ((data1, ns1), (data2, NS2)):
         for s_, p_, o_, c in data:
             tr = (_term_ns(s_, ns), _term_ns(p_, ns), _term_ns(o_, ns))
             if ds:
@@ -1310,6 +1314,54 @@ def run_impl(case):
                 viol.append("nsctx: step %d, %s with ux: = <%s> gives %s but the fully expanded query gives %s"
                             % (k + 1, how, ns, _short(got), _short(want)))
                 break
+
+        # An earlier query of this process DECLARES a prefix name - one rdflib binds by default (rdf, rdfs, owl, xsd)
+        # or a name nobody binds - for another namespace; later queries use the name without declaring it, through
+        # prepareQuery / Graph.query(text, initNs=…): they must still mean the default namespace (or fail as before).
+        if not viol:
+            pn, nsd = rng.choice([("rdfs", "http://www.w3.org/2000/01/rdf-schema#"), ("owl", "http://www.w3.org/2002/07/owl#"),
+                                  ("rdf", "http://www.w3.org/1999/02/22-rdf-syntax-ns#"), ("qq", None)])
+            # (not xsd: the text declares XSD: for that namespace, and the one-to-one namespace manager of the
+            #  prologue then forgets the default name xsd - a convenience outside the property)
+            gD = build_two_ns(data if nsd else [], case["data2"], ds, NS, ns1=nsd or NS)
+            text_d = query_text(q, "ctx", pfx=pn)
+            uses_prefix = (pn + ":") in text_d.split("WHERE", 1)[-1]
+            if nsd:
+                want_d = evaluate(gD, q, text=query_text(q, "full", ns=nsd))
+            else:
+                want_d = evaluate(gD, q, text=text_d, initNs={"ex": URIRef("http://ex/")})   # fails: unknown prefix
+            other = {"ex": URIRef("http://ex/")}
+
+            def ask(way):
+                try:
+                    if way == "prepare":
+                        return evaluate(gD, q, prepared=prepareQuery(text_d))
+                    if way == "prepare+initNs":
+                        return evaluate(gD, q, prepared=prepareQuery(text_d, initNs=other))
+                    return evaluate(gD, q, text=text_d, initNs=other)
+                except Exception as e:  # noqa: BLE001
+                    return ("err", _exc_name(e))
+            ways = ["prepare", "prepare+initNs", "query+initNs"]
+            stats["ns_default_prefix_" + pn] = 1
+            for phase in ("before", "after"):
+                for way in ways:
+                    got = ask(way)
+                    compared += 1
+                    if got != want_d and not viol:
+                        viol.append("nsctx-default: %s another query declared PREFIX %s: <%s>, %s of the text using %s: "
+                                    "undeclared gives %s, expected %s" % (phase, pn, NS2, way, pn, _short(got), _short(want_d)))
+                if viol:
+                    break
+                if phase == "before":       # the polluter: the same text, with its own meaning of the prefix
+                    got = evaluate(gD, q, text=query_text(q, "ctx", pfx=pn, declare=NS2))
+                    want2 = evaluate(gD, q, text=full[NS2])
+                    compared += 1
+                    if got != want2:
+                        viol.append("nsctx-default: the query declaring PREFIX %s: <%s> itself gives %s, expanded %s"
+                                    % (pn, NS2, _short(got), _short(want2)))
+                        break
+            if uses_prefix:
+                stats["ns_default_prefix_used"] = 1
 
     elif stream == "sel":
         vs = VARS[: case["nvars"]]
